@@ -222,7 +222,7 @@ func checkJustified(prop string, m *Model, v *Verdict) {
 }
 
 // checkRepeatOnTime (C04 timeliness): an unchanged firing group is re-notified
-// within repeat_interval + group_interval (+ flush time-out and slack).
+// within repeat_interval + max(group_interval, flush time-out) (+ slack).
 func checkRepeatOnTime(prop string, m *Model, v *Verdict) {
 	seqs := m.seqs()
 	for _, k := range sortedSeqKeys(seqs) {
@@ -243,7 +243,11 @@ func checkRepeatOnTime(prop string, m *Model, v *Verdict) {
 			if rep > m.retention() {
 				continue
 			}
-			deadline := n1.Done + rep + r.GroupInterval + flushTimeout(r.GroupInterval) + c01Slack
+			// The group's timer is re-armed when a flush starts, so flushes start every
+			// max(group_interval, duration of the previous flush) and a flush lasts at
+			// most the flush time-out (a failing sibling integration can stretch it that
+			// far); this integration is healthy, its own delivery takes milliseconds.
+			deadline := n1.Done + rep + flushTimeout(r.GroupInterval) + c01Slack
 			if deadline > m.P.Horizon-time.Second {
 				continue
 			}
@@ -837,7 +841,27 @@ func checkDelivery(prop string, m *Model, v *Verdict) {
 							if _, known := m.Labels[lk]; !known {
 								continue
 							}
-							if m.Throughout(first.T-c01Slack, nx.T, false, func(t Dur) bool { return !m.Firing(lk, t) }) && !m.Suppressed(m.Labels[lk], nx.T) && !m.Suppressed(m.Labels[lk], nx.T-c01Slack) {
+							// (a flush at which the alert is suppressed sends nothing for it, succeeds,
+							// and the resolved alert is deleted: suppression anywhere between the two
+							// attempts takes the obligation away, not only at the second one)
+							var r1 *MRoute
+							if rs1 := m.RoutesOf(first); len(rs1) == 1 {
+								for x := range rs1 {
+									r1 = x
+								}
+							}
+							cal1 := r1 != nil && (len(r1.Mute) > 0 || len(r1.Active) > 0)
+							if m.Throughout(first.T-c01Slack, nx.T, cal1, func(t Dur) bool {
+								if m.Firing(lk, t) || m.Suppressed(m.Labels[lk], t) {
+									return false
+								}
+								if cal1 {
+									if muted, _ := m.TimeMuted(r1, t); muted {
+										return false
+									}
+								}
+								return true
+							}) {
 								v.Ob("resolved-alert-kept-after-failed-flush")
 								if !nx.Resolved()[lk] {
 									sig := prop + "/resolved-alert-dropped-after-failed-flush"
